@@ -254,6 +254,8 @@ def run(repo: Repo, rep: Report, tier: str) -> None:
     rep.rule("artim-every-pass", "the provider's loop tests the ARTIM timer on every pass, ahead of and independent of transport activity (C05's reactor-order rule)")
     delegate(repo, rep, tier, "C05", ("reactor-order", "artim-progress"), "artim-every-pass", "a peer that keeps the transport busy (streams PDUs after an abort / reject / release response) starves the ARTIM test: the provider thread, kill() and the socket outlive the ACSE timeout")
     rep.rule("reactor-resumed", "every DIMSE exchange that paused the association reactor resumes it before surfacing its final result (C24's checkpoint rule)")
+    rep.rule("timers-measure", "the timers that enforce the configured timeouts measure elapsed time from start() for every order of start / stop / set-timeout (C09's timer rules)")
+    delegate(repo, rep, tier, "C09", ("field-updates", "state-machine", "expired-semantics", "clock-source"), "timers-measure", "the idle / ARTIM timer that enforces a configured timeout does not expire when it should (a timeout set after the timer was started, a restart that does not read the clock): a silent peer keeps the association, its threads and its socket past the configured timeout")
     delegate(repo, rep, tier, "C24", ("checkpoint",), "reactor-resumed", "while the reactor is paused the network (idle) timeout is not enforced and a silent peer keeps the association, its provider thread and the socket alive indefinitely")
 
     rep.rule("socket-ops", "every method called on a socket in transport.py is non-waiting or one of the waiting operations bounded by the other rules")
